@@ -2,7 +2,7 @@
 Lemmas/IPSetL11.lean — histories: abstract (set-theoretic) meaning of every operation, the
 step relation, and the every-reachable-state theorem (C06/C07).
 -/
-import NetaddrVerif.Lemmas.IPSetL10
+import NetaddrVerif.Lemmas.IPSetL10b
 namespace NV.IPSet
 open NV NV.Blk
 
@@ -68,7 +68,7 @@ theorem getSet_setSet (sets : List St) (i j : Nat) (s : St) :
       rw [List.getElem?_set_ne (fun h => e h.symm)]
 
 /-- which operations the history theorem covers, and their argument conditions
-    (`remove`, `-` and `^` are not covered yet: see Props/C06 and C07) -/
+    (`-` and `^` are not covered: see Props/C06 and C07) -/
 def Op.OK : Op → Prop
   | .newNet _ n => n.WF
   | .newRng _ r => ArgOK (.rng r)
@@ -77,7 +77,7 @@ def Op.OK : Op → Prop
   | .updArg _ x => ArgOK x
   | .updList _ xs => ∀ x ∈ xs, ArgOK x
   | .pop _ (some b) => Good b
-  | .rem _ _ => False
+  | .rem _ x => ArgOK x
   | .bin _ _ _ o => o = .or ∨ o = .and
   | _ => True
 
@@ -94,32 +94,6 @@ theorem rel_upd {sets : List St} {σ : Abs} (h : Rel sets σ) (i : Nat) (s : St)
   · simp only [e, if_true]; exact ⟨hi, hd⟩
   · simp only [e, if_false]; exact h j
 
-theorem add_spec (s : St) (hs : Inv s) (x : Arg) (hx : ArgOK x) :
-    Inv (add s x) ∧ ∀ u a, denS (add s x) u a ↔ denS s u a ∨ argDen x u a := by
-  cases x with
-  | net n =>
-    obtain ⟨hg, hb, hv, hp⟩ := netCidr_good n hx
-    have hfl : (netCidr n).first = n.first ∧ (netCidr n).last = n.last := by
-      have h1 : (netCidr n).first = n.first := by
-        have := congrArg Blk.base hb; simpa [blk] using this
-      exact ⟨h1, by rw [last_eq _ hg.1, last_eq n hx, h1, hv, hp]⟩
-    have := compactSingle_spec s hs (netCidr n) hg
-    refine ⟨this.1, fun u a => ?_⟩
-    show denS (compactSingle (dInsert s (netCidr n)) (netCidr n)) u a ↔ _
-    rw [this.2 u a, hfl.1, hfl.2, hv]
-    unfold argDen
-    constructor
-    · rintro (h | ⟨h1, h2⟩)
-      · exact Or.inl h
-      · exact Or.inr ⟨h1.symm, h2⟩
-    · rintro (h | ⟨h1, h2⟩)
-      · exact Or.inl h
-      · exact Or.inr ⟨h1.symm, h2⟩
-  | rng r => exact addRange_spec s hs.good r hx
-
-theorem denS_nil (u a : Nat) : ¬ denS [] u a := by
-  rintro ⟨n, hn, _⟩; simp at hn
-
 /-- one step keeps "canonical and denoting the abstract sets" -/
 theorem step_rel (sets : List St) (σ : Abs) (op : Op) (h : Rel sets σ) (hop : op.OK) :
     Rel (stepOp sets op).1 (specStep sets σ op) := by
@@ -134,7 +108,9 @@ theorem step_rel (sets : List St) (σ : Abs) (op : Op) (h : Rel sets σ) (hop : 
   | add i x =>
     have := add_spec (getSet sets i) (h i).1 x hop
     exact rel_upd h i _ _ this.1 (fun u a => by rw [this.2 u a, (h i).2 u a])
-  | rem i x => exact absurd hop (by simp [Op.OK])
+  | rem i x =>
+    have := remove_spec (getSet sets i) (h i).1 x hop
+    exact rel_upd h i _ _ this.1 (fun u a => by rw [this.2 u a, (h i).2 u a])
   | updSet i j =>
     have := updateSet_spec (getSet sets i) (getSet sets j) (fun n hn => ((h i).1.good n hn).1)
       (fun n hn => ((h j).1.good n hn).1)
